@@ -124,6 +124,9 @@ pub fn alphabet(doc: &Value, size: AlphaSize, max_names: usize, spellings: bool)
             base.push(filter_sel(&format!("@[{}]==1", q)));
         }
     }
+    // the pool for the full pair product of the thorough tier is the base without the confusable groups (those are
+    // paired within their groups below)
+    let plain_base = base.clone();
     if size != AlphaSize::Singles {
         for g in CONFUSABLE {
             for f in g.iter() {
@@ -153,7 +156,7 @@ pub fn alphabet(doc: &Value, size: AlphaSize, max_names: usize, spellings: bool)
         red.push(Sel::Slice(None, None, Some(-1)));
         red.push(filter_sel("@.a"));
         red.push(filter_sel("@==1"));
-        let pool: &Vec<Sel> = if size == AlphaSize::Full { &base } else { &red };
+        let pool: &Vec<Sel> = if size == AlphaSize::Full { &plain_base } else { &red };
         for a in pool {
             for b in pool {
                 actions.push(Seg::child(vec![a.clone(), b.clone()]));
